@@ -77,6 +77,10 @@ func (r *Report) NontrivialKey(key string) {
 func (r *Report) Discard(reason string) {
 	r.mu.Lock()
 	r.discard = reason
+	if r.classes == nil {
+		r.classes = map[string]int{}
+	}
+	r.classes["__discarded"] = 1
 	r.mu.Unlock()
 }
 
